@@ -196,9 +196,10 @@ func (a *auditor) checkRevise(ev *rhplab.Event, x *rhplab.Exchange, reported []t
 		want, _, wantErr = proto4.ReviseForSectorRoots(pred, req.Prices, req.Length)
 	case *proto4.RPCFundAccountsRequest:
 		rpc, wantKind = "fund", rhplab.EvCreditAccounts
-		var total types.Currency
-		for _, d := range req.Deposits {
-			total = total.Add(d.Amount)
+		total, wrapped := rhplab.WrapSum(req.Deposits)
+		if wrapped {
+			a.report("commit-despite-overflow:fund", "deposits whose sum exceeds 2^128-1 were persisted (the amount due is not representable)", ev, map[string]any{"deposits": req.Deposits, "wrapped_total": total})
+			total = types.MaxCurrency
 		}
 		want, _, wantErr = proto4.ReviseForFundAccounts(pred, total)
 		if !slices.Equal(ev.Deposits, req.Deposits) {
@@ -214,14 +215,17 @@ func (a *auditor) checkRevise(ev *rhplab.Event, x *rhplab.Exchange, reported []t
 			a.report("uncorrelated-commit", "replenish committed without a balance query of matching length", ev, nil)
 			return
 		}
-		var total types.Currency
 		deps := make([]proto4.AccountDeposit, len(req.Accounts))
 		for i, acc := range req.Accounts {
 			deps[i].Account = acc
 			if reported[i].Cmp(req.Target) < 0 {
 				deps[i].Amount = req.Target.Sub(reported[i])
 			}
-			total = total.Add(deps[i].Amount)
+		}
+		total, wrapped := rhplab.WrapSum(deps)
+		if wrapped {
+			a.report("commit-despite-overflow:"+rpc, "deposits whose sum exceeds 2^128-1 were persisted (the amount due is not representable)", ev, map[string]any{"due": deps, "wrapped_total": total})
+			total = types.MaxCurrency
 		}
 		want, _, wantErr = proto4.ReviseForReplenish(pred, total)
 		if !slices.Equal(ev.Deposits, deps) {
